@@ -114,7 +114,7 @@ def _leaf_equal(sym_leaf, conc_leaf, model, scale=1.0):
         return (sym_leaf == conc_leaf), '%r != %r' % (sym_leaf, conc_leaf)
     if got != got or exp != exp:
         return False, 'NaN'
-    if math.isclose(exp, got, rel_tol=1e-7, abs_tol=1e-9 * max(1.0, abs(exp), scale)):
+    if math.isclose(exp, got, rel_tol=1e-6, abs_tol=1e-9 * max(1.0, abs(exp), scale)):
         return True, ''
     return False, 'expected %r got %r' % (exp, got)
 
@@ -195,6 +195,8 @@ def _fl(t):
 def process(h, want_functions=False):
     t0 = time.time()
     eng = Engine(timeout_ms=h.timeout_ms, max_paths=h.max_paths, max_seconds=h.max_seconds)
+    import os as _os
+    eng.cross_every = int(_os.environ.get('VERIF_CROSS_EVERY', '0') or 0)
     R = dict(harness=h.name, describe=h.describe(), paths=0, ok_paths=0, exc_paths=0, pruned=0,
              unsupported=0, domain=0, obligations=0, discharged=0, discharged_exact=0,
              discharged_robust=0, violations=[], inconclusive=[], validated=0, validation_boundary=0,
@@ -364,6 +366,11 @@ def process(h, want_functions=False):
                 m2, ok2 = interior_model(eng, res, extra=[z3.Not(ob.formula(robust=True))])
                 if ok2:
                     trials.append(model_to_floats(eng, m2))
+                if ob.eqdata is not None:
+                    # a counterexample that violates the obligation by a wide margin survives float replay
+                    r3, m3 = eng.sat_with(res, z3.Not(ob.formula(robust=True, loosen=1000000)))
+                    if r3 == 'sat':
+                        trials.append(model_to_floats(eng, m3))
             for tv in trials:
                 attempts += 1
                 out, cenv = run_concrete(h, tv)
@@ -390,6 +397,8 @@ def process(h, want_functions=False):
         if not confirmed:
             R['inconclusive'].append('%d candidate(s) for %s: %s' % (len(cands), gk, last_note))
     R['stats'] = dict(eng.stats)
+    if eng.stats.get('cross_disagree'):
+        R['inconclusive'].append('z3 and cvc5 disagree on %d deciding queries' % eng.stats['cross_disagree'])
     R['wall_s'] = time.time() - t0
     return R
 
